@@ -133,8 +133,8 @@ CHECKS["C11"] = dict(
           "states come from the Decode walk. An edge cover of the dumped graph is replayed on real generators sharing one definition "
           "(each next() compared with the model, with the single-packet parse, and warning counts), random long streams with random "
           "schedules are validated by Trace_Generator, and the definition's XML is compared before/after."),
-    note="Streams avoid packets whose decoding the specification does not decide (out-of-bounds reads, field errors). Segment combining is "
-         "covered by C12 only (not interleaved across generators here). " + TRUSTED,
+    note="Streams avoid packets whose decoding the specification does not decide (out-of-bounds reads, field errors). A segmented section composes "
+         "Segments (reassembly), Decode and Generator for generators suspended in the middle of a group. " + TRUSTED,
     technique="TLA+ spec of generator interleavings, TLC exhaustive BFS; edge-cover replay (spec->code) and trace validation (code->spec)",
     design="5 C11")
 
